@@ -217,6 +217,9 @@ func coerceLiteral(from ast.Value, to Type, variableValues map[string]interface{
 		return nil, nil
 	} else if variable, ok := from.(*ast.Variable); ok {
 		if value, ok := variableValues[variable.Name.Name]; ok {
+			if value == nil && IsNonNullType(to) {
+				return nil, fmt.Errorf("cannot coerce null to non-null type")
+			}
 			return value, nil
 		}
 	}
